@@ -264,7 +264,12 @@ def entity_value(m: SidModel, t: str, k: str, names=None):
     spec = m.specs[(t, k)]
     aliases = set(m.extension_alias)
     if spec.free:
-        return st.sampled_from(names or SMALL_NAMES)
+        if names:
+            return st.sampled_from(names)
+        # small pool plus a few names that collide with values of other levels (a task name, an extension, ...)
+        pool = collision_pool()
+        extra = [pool[i] for i in (0, len(pool) // 3, len(pool) // 2, len(pool) - 1)] if pool else []
+        return st.sampled_from(SMALL_NAMES + [x for x in extra if x not in aliases and x not in ("*", ">")])
     strat = concrete_value(spec, wide=False, digits_dense=True)
     if any(l in aliases for l in spec.literals):
         strat = strat.filter(lambda v: v not in aliases)
